@@ -1454,6 +1454,10 @@ func genCmdCase(rt *rapid.T) (c04Case, *env) {
 			default:
 				detail = "use_package=" + pick(e, "value", []string{"foo", ""})
 			}
+			// an option that switches generation off does not switch validation off
+			if backend == "go" && e.coin("after_skip_go_gen") {
+				detail = "skip_go_gen," + detail
+			}
 			args = append(append([]string{"-g", backend + ":" + detail}, tail...), main)
 		case "unknown_plugin":
 			detail = pick(e, "plugin", []string{"zznosuchplugin", "zznosuch=/nonexistent/zz-plugin", "zznosuch:opt=1"})
